@@ -113,7 +113,8 @@ def judge_refinement(chk, prop, entries, metas, verdicts, classify=None):
             chk.report(key, "recipe %s compiled as %s in context %d: source meaning %s, TEAL run %s" % (
                 shape_digest(e["recipe"]), ",".join(metas[idx][k - 1]["tags"]), cid, v[4], v[5]),
                 {"recipe": e["recipe"], "cx": e["cx"], "cid": cid, "text": metas[idx][k - 1]["text"],
-                 "settings": metas[idx][k - 1]["tags"], "verdict": v})
+                 "settings": metas[idx][k - 1]["tags"], "st": metas[idx][k - 1]["st"], "verdict": v,
+                 "vars": e.get("vars", []), "mode": e["cx"]["mode"]})
         else:
             if len(chk.cov["samples"]) < 4 and nontrivial(te):
                 chk.sample({"recipe": e["recipe"], "teal": metas[idx][k - 1]["text"], "context": cid, "verdict": v[3:7]})
@@ -124,3 +125,41 @@ def judge_refinement(chk, prop, entries, metas, verdicts, classify=None):
 def pipeline_key(te):
     import pipeline
     return pipeline.stream_key(te["teal"])
+
+
+def replay_refinement(prop, path, invariant="Refines"):
+    """Re-runs one recorded failing artefact: the recipe is replayed into the current PyTeal tree, compiled
+    with the recorded settings, and TLC checks the property as an INVARIANT so that its counterexample
+    (the AVM run up to the divergence) is printed.  Exit 1 if the violation reproduces."""
+    import os
+    import sys
+    import pipeline
+    import tlc
+    d = json.load(open(path))["payload"]
+    prog = {"main": d["recipe"]["main"], "rt": d["recipe"].get("rt", []), "vars": d.get("vars", []),
+            "mode": d.get("mode", "app")}
+    res = pipeline.compile_all([(prog, [d["st"]])])[0]
+    if "teal" not in res[0]:
+        print("replay: recipe no longer compiles with %r: %s" % (d["st"], res[0]))
+        sys.exit(0)
+    print(res[0]["teal"])
+    entry, meta = pipeline.make_entry(1, prog, res, d["cx"])
+    wd = tlc.workdir("replay_" + prop)
+    bf = os.path.join(wd, "batch.json")
+    tlc.dump_json(bf, [entry])
+    cfg = ("SPECIFICATION Spec\nCONSTANTS Base = 256\nWD = 8\nMaxSteps = 3000\nINVARIANT %s\nCHECK_DEADLOCK FALSE\n"
+           % invariant)
+    r = tlc.run_tlc("Refine", cfg, wd, env={"BATCH_FILE": bf}, workers=1, timeout=600)
+    print(tlc.tail(r, 80))
+    if r.invariant_violated:
+        print("VIOLATION property=%s replay=%s" % (prop, path))
+        sys.exit(1)
+    sys.exit(0 if not r.error else 2)
+
+
+def class_histogram(verdicts):
+    h = {}
+    for v in verdicts.values():
+        key = v[3] + ":" + v[4].split("/")[0]
+        h[key] = h.get(key, 0) + 1
+    return h
